@@ -4,11 +4,13 @@ suite passes with it; (2) the demonstration fails with it and (3) passes without
   tools/confirm_seed.py /tmp/seed/out/C01 [...]
 Writes <dir>/confirm.json."""
 import json, os, re, subprocess, sys
-WT = "/tmp/confirm/wt"; TD = "/tmp/confirm/target"
+CD = os.environ.get("CONFIRM_DIR", "/tmp/confirm")
+WT = f"{CD}/wt"; TD = f"{CD}/target"
+EXTRA = {}
 def sh(cmd, cwd=None):
-    r = subprocess.run(cmd, cwd=cwd, shell=True, capture_output=True, text=True, env=dict(os.environ, CARGO_TARGET_DIR=TD, CARGO_NET_OFFLINE="true"))
+    r = subprocess.run(cmd, cwd=cwd, shell=True, capture_output=True, text=True, env=dict(os.environ, CARGO_TARGET_DIR=TD, CARGO_NET_OFFLINE="true", **EXTRA))
     return r.returncode, r.stdout + r.stderr
-os.makedirs("/tmp/confirm", exist_ok=True)
+os.makedirs(CD, exist_ok=True)
 if not os.path.exists(WT):
     print(sh(f"git -C /repo worktree add --detach {WT} HEAD")[1][-300:])
 for d in sys.argv[1:]:
@@ -19,6 +21,9 @@ for d in sys.argv[1:]:
     sh(f"git checkout -q --detach {base}", WT)
     res["base_commit"] = base
     run = open(f"{d}/run.txt").read()
+    EXTRA.clear()
+    if "searchlite_verif" in run:
+        EXTRA["RUSTFLAGS"] = "--cfg searchlite_verif"
     m = re.search(r"(?:<worktree>|/tmp/seed/c\d+\w*)/(searchlite-\S+\.rs)", run)
     dest = m.group(1)
     feats = "--features vectors" if "--features vectors" in run else ""
@@ -37,7 +42,8 @@ for d in sys.argv[1:]:
     rc, out = sh(democmd, WT)
     res["demo_without_change"] = out.strip()
     def failed(o):
-        mm = re.search(r"(\d+) passed; (\d+) failed", o); return (mm and int(mm.group(2)) > 0) or "error" in o
+        # a demo that does not compile is not a failing demo
+        mm = re.search(r"(\d+) passed; (\d+) failed", o); return bool(mm) and int(mm.group(2)) > 0
     def passed(o):
         mm = re.search(r"(\d+) passed; (\d+) failed", o); return bool(mm) and int(mm.group(2)) == 0 and int(mm.group(1)) > 0
     res["ok"] = bool(res["applies"] and res["suite_with_change"].split()[-1:] == ["0"] and failed(res["demo_with_change"]) and passed(res["demo_without_change"]))
